@@ -20,6 +20,11 @@ The iteration order of the wrapper's inspector set is chosen by the case (any or
 CPython behaviour; it matters only when an exception of the expected format's inspector surfaces).
 
 Oracle (model-free, demands what the property text states): see oracle().
+
+  {'op':'indep','a':<wrap case>,'b':<wrap case>,['pre':<wrap case>],'bfirst':bool,['post':1]}   the session a alone, and again while a
+     second live wrapper runs b interleaved call by call (a third one, pre, is created, fed and discarded before): every observation of a
+     must be identical (detection depends on the content handed to THAT wrapper only).  {'op':'detect2','d','o'}: detect_file_format(d)
+     alone and after detect_file_format(o).  Not modelled (the model has no state outside a wrapper); model-free oracle only.
 """
 import sys, os, io, json, random, struct, tempfile, logging
 import gen_insp, gen_C06
@@ -165,21 +170,24 @@ def state(w):
     per = ','.join('%s:%s:%s' % (i.NAME, q(lambda: i.complete), q(lambda: i.format_match)) for i in insps)
     return '%s|%s|%s|%s' % (show_formats(q(lambda: w.formats)), show_format(q(lambda: w.format)), per, 'True' if w._finished else 'False')
 
-def run_wrap(c):
-    fi = _fi()
-    data = data_of(c['d'])
-    kind = c['kind']
-    if kind == 'f': src = FSrc(data)
-    elif kind == 'i': src = LSrc(split_lens(data, c['lens']))
-    else: src = GSrc(split_lens(data, c['lens']))
-    w = fi.InspectWrapper(src, expected_format=c.get('exp'), allowed_formats=c.get('allowed'))
-    reorder(fi, w, c.get('oseed', 0))
-    recs = [state(w)]
-    stopping = stopped = False
-    for op in c['ops']:
+class Sess:
+    """one InspectWrapper session driven op by op (so that several can be interleaved in one process)"""
+    def __init__(self, c):
+        fi = _fi()
+        data = data_of(c['d'])
+        kind = c['kind']
+        if kind == 'f': self.src = FSrc(data)
+        elif kind == 'i': self.src = LSrc(split_lens(data, c['lens']))
+        else: self.src = GSrc(split_lens(data, c['lens']))
+        self.w = fi.InspectWrapper(self.src, expected_format=c.get('exp'), allowed_formats=c.get('allowed'))
+        reorder(fi, self.w, c.get('oseed', 0))
+        self.recs = [state(self.w)]
+        self.stopping = self.stopped = False
+    def do(self, op):
+        w = self.w
         if op == 2:
-            stopping = True; continue
-        if stopping and stopped and op != 1: continue
+            self.stopping = True; return
+        if self.stopping and self.stopped and op != 1: return
         try:
             if op == 1:
                 w.close(); out = 'N'
@@ -188,9 +196,38 @@ def run_wrap(c):
             else:
                 r = w.read(-1 if op == 9 else op - 10); out = 'B%d.%d' % (len(r), ck(r))
         except Exception as e:
-            out = 'E' + canon(e); stopped = True
-        recs.append('%s@%d|%s' % (out, src.where(), state(w)))
-    return ';'.join(recs)
+            out = 'E' + canon(e); self.stopped = True
+        self.recs.append('%s@%d|%s' % (out, self.src.where(), state(w)))
+    def result(self):
+        return ';'.join(self.recs)
+
+def run_wrap(c):
+    s = Sess(c)
+    for op in c['ops']: s.do(op)
+    return s.result()
+
+def run_indep(c):
+    """the case c['a'] alone, and again while a second wrapper reads c['b'] interleaved call by call (a third wrapper
+    is created, fed and discarded before): every observation of the first must be identical"""
+    alone = run_wrap(c['a'])
+    if 'pre' in c:
+        p = Sess(c['pre'])
+        for op in c['pre']['ops']: p.do(op)
+    if c.get('bfirst'):
+        B = Sess(c['b']); A = Sess(c['a'])
+    else:
+        A = Sess(c['a']); B = Sess(c['b'])
+    bops = list(c['b']['ops'])
+    for i, op in enumerate(c['a']['ops']):
+        if c.get('bfirst') and i < len(bops): B.do(bops[i])
+        A.do(op)
+        if not c.get('bfirst') and i < len(bops): B.do(bops[i])
+    for op in bops[len(c['a']['ops']):]: B.do(op)
+    inter = A.result()
+    if 'post' in c:                       # queries of the first wrapper once more after the second one is done
+        inter2 = state(A.w); alone_last = alone.split(';')[-1].split('|', 1)[1] if ';' in alone else alone
+        if inter2 != alone_last: return 'DIFF|' + alone + '|#|' + inter + ';LATE:' + inter2
+    return ('SAME|' + alone) if inter == alone else ('DIFF|' + alone + '|#|' + inter)
 
 _tmpdir = None
 def run_detect(c):
@@ -228,12 +265,22 @@ def run_detect(c):
     s = OSet(insps); s._order = insps; w._inspectors = s
     return '%s@%d|%s|%s' % (res, w.c03_read, 'True' if getattr(w._source, 'closed', False) else 'False', state(w))
 
+def run_detect2(c):
+    """detect_file_format on c['d'] alone, and after a call on another file c['o']: same answer"""
+    alone = run_detect({'op': 'detect', 'd': c['d']})
+    run_detect({'op': 'detect', 'd': c['o']})
+    after = run_detect({'op': 'detect', 'd': c['d']})
+    return ('SAME|' + alone) if after == alone else ('DIFF|' + alone + '|#|' + after)
+
 def impl(c):
     if c['op'] == 'wrap': return run_wrap(c)
     if c['op'] == 'detect': return run_detect(c)
+    if c['op'] == 'indep': return run_indep(c)
+    if c['op'] == 'detect2': return run_detect2(c)
     raise KeyError(c['op'])
 
 def encode(c):
+    if c['op'] in ('indep', 'detect2'): return None        # model-free family (the model has no shared state by construction)
     if c['op'] == 'detect':
         return ['detect', data_of(c['d'])]
     al = c.get('allowed')
@@ -294,8 +341,27 @@ def check_answer(where, fs, fm, allowed):
         return 'format reports %s, outside allowed_formats=%r, %s' % (fm, allowed, where)
     return None
 
+def first_diff(io_):
+    a, _, b = io_[5:].partition('|#|')
+    ra, rb = a.split(';'), b.split(';')
+    for i, (x, y) in enumerate(zip(ra, rb)):
+        if x != y:
+            fx, fy = x.split('|'), y.split('|')
+            d = [(u, v) for u, v in zip(','.join(fx).split(','), ','.join(fy).split(',')) if u != v][:4]
+            return 'observation %d: alone %s / with the other wrapper %s; differing items %r' % (i, '|'.join(fx[:3]), '|'.join(fy[:3]), d)
+    return 'observations %d vs %d' % (len(ra), len(rb)) if len(ra) != len(rb) else (rb[-1][:120] if rb else '')
+
 def oracle(c, io_):
     if io_.startswith('HARNESS-ERROR'): return io_
+    if c['op'] == 'indep':
+        if io_.startswith('DIFF|'):
+            return ('detection depends on ANOTHER wrapper in the same process: content A %s gives different format/formats/exceptions when a second '
+                    'wrapper reads content B %s interleaved (%s)' % (json.dumps(c['a']['d']), json.dumps(c['b']['d']), first_diff(io_)))
+        return oracle(c['a'], io_[5:])
+    if c['op'] == 'detect2':
+        if io_.startswith('DIFF|'):
+            return ('detect_file_format(%s) answers differently after detect_file_format(%s): %s' % (json.dumps(c['d']), json.dumps(c['o']), first_diff(io_)))
+        return oracle({'op': 'detect', 'd': c['d']}, io_[5:])
     if c['op'] == 'detect':
         res = io_.split('@')[0]
         if res.startswith('EXN:') and res != 'EXN:ImageFormatError':
@@ -497,7 +563,63 @@ def targeted(rng, tier):
             d = {'g': 'patch', 'n': n, 'bg': rng.choice(['z', 'r%d' % rng.randrange(10**6)]), 'p': [P(510, b'\x55\xaa')] + extra}
             yield mk_case(rng, d, n, 'mbr', style=rng.choice(['detect', 'one', 'cuts']), allowed=rng.choice([None, None, ['gpt', 'raw'], ['vdi', 'gpt']]), exp=None, kind='f')
 
+def partner_spec(rng, data):
+    """a content that differs from `data` in every format's signature: the signatures data lacks (one of the offset-0
+    ones, and every one that lives elsewhere), on zeros, long enough for all of them"""
+    em = imgbuild.expected_matches(data)
+    absent = [f for f in NONRAW if em.get(f) is not True]
+    zero_off = [f for f in absent if f in ('qcow2', 'qed', 'vhd', 'vhdx', 'vmdk', 'luks')]
+    sigs = [f for f in absent if f in ('vdi', 'iso', 'gpt')] + ([rng.choice(zero_off)] if zero_off else [])
+    return {'g': 'overlay', 'sigs': sigs, 'bg': 'zero', 'n': rng.choice([600, 34816, 40000]), 'seed': rng.randrange(10**6),
+            'iso': '4344303031', 'late': None, 'pl': True}
+
+def indep_cases(rng, tier):
+    """independence of other wrappers: the same session alone and interleaved with a second live wrapper"""
+    P = lambda off, b: [off, bytes(b).hex()]
+    base = []
+    # contents with and without each signature, small enough to keep this family cheap
+    for sig in (b'QFI\xfb', b'QED\x00', b'conectix', b'vhdxfile', b'KDMV', b'LUKS\xba\xbe', b''):
+        for n in (600, 4096):
+            base.append(({'g': 'patch', 'n': n, 'bg': 'z', 'p': [P(0, sig)] if sig else []}, n, 'indep:sig0'))
+    base.append(({'g': 'patch', 'n': 600, 'bg': 'z', 'p': [P(0x40, struct.pack('<I', 0xbeda107f))]}, 600, 'indep:vdi'))
+    base.append(({'g': 'patch', 'n': 600, 'bg': 'z', 'p': [P(510, b'\x55\xaa')]}, 600, 'indep:gpt'))
+    base.append(({'g': 'patch', 'n': 34816, 'bg': 'z', 'p': [P(32769, b'CD001')]}, 34816, 'indep:iso'))
+    for fmt in FORMATS:
+        spec = {'g': 'valid', 'fmt': fmt, 'seed': rng.randrange(10**6)}
+        n = len(data_of(spec))
+        if n <= 2 * MI: base.append((spec, n, 'indep:valid:' + fmt))
+    specs = list(overlay_specs(rng, 'quick'))
+    for spec, n, lab in rng.sample(specs, min(len(specs), 40 if tier == 'quick' else 300)):
+        base.append((spec, n, 'indep:' + lab))
+    reps = 2 if tier == 'quick' else 4
+    for spec, n, lab in base:
+        for _ in range(reps):
+            a = mk_case(rng, spec, n, lab, style=rng.choice(['detect', 'small', 'one', 'k64', 'cuts']) if n <= 70000 else rng.choice(['detect', 'k64', 'mib']),
+                        exp=None if rng.random() < 0.9 else rng.choice(FORMATS), kind='f')
+            r = rng.random()
+            if r < 0.6: bspec = partner_spec(rng, data_of(spec))
+            elif r < 0.8: bspec = {'g': 'valid', 'fmt': rng.choice(FORMATS[1:]), 'seed': rng.randrange(10**6)}
+            else: bspec = rng.choice(base)[0]
+            bn = len(data_of(bspec))
+            if bn > 2 * MI: continue
+            b = mk_case(rng, bspec, bn, 'partner', style=rng.choice(['detect', 'small', 'one', 'k64']) if bn <= 70000 else 'k64', allowed=None, exp=None, kind='f')
+            c = {'op': 'indep', 'a': a, 'b': b, 'bfirst': rng.random() < 0.5, 'k': lab}
+            if rng.random() < 0.5:
+                pspec = rng.choice(base)[0]
+                if len(data_of(pspec)) <= 70000:
+                    c['pre'] = mk_case(rng, pspec, len(data_of(pspec)), 'discarded', style='one', allowed=None, exp=None, kind='f')
+            if rng.random() < 0.5: c['post'] = 1
+            yield c
+    for spec, n, lab in rng.sample(base, min(len(base), 16 if tier == 'quick' else 60)):
+        other = rng.choice([partner_spec(rng, data_of(spec)), rng.choice(base)[0]])
+        if n <= 2 * MI and len(data_of(other)) <= 2 * MI:
+            yield {'op': 'detect2', 'd': spec, 'o': other, 'k': 'detect2:' + lab}
+
 def gen_cases(rng, tier):
+    yield from gen_cases_single(rng, tier)
+    yield from indep_cases(rng, tier)
+
+def gen_cases_single(rng, tier):
     reps = 3 if tier == 'quick' else 4
     for spec, n, lab in overlay_specs(rng, tier):
         for _ in range(reps):
@@ -531,6 +653,7 @@ def gen_cases(rng, tier):
 
 def classify(c, io_):
     if io_.startswith('HARNESS'): return 'harness-error'
+    if c['op'] in ('indep', 'detect2'): return c['op'] + ':' + io_[:4]
     if c['op'] == 'detect':
         res = io_.split('@')[0]
         return 'detect:' + (res if res.startswith('EXN') or res in ('None', 'raw') else 'specific')
@@ -542,7 +665,7 @@ def classify(c, io_):
                                 fm if fm.startswith('EXN') or fm in ('None', 'raw') else 'specific', ':early' if early else '')
 
 def trivial(c, io_):
-    return len(data_of(c['d'])) == 0
+    return len(data_of(c['a']['d'] if c['op'] == 'indep' else c['d'])) == 0
 
 def search(rng, budget):
     n = 0
@@ -560,7 +683,8 @@ RULE = ('signature-overlay generator (imgbuild.overlay: every single signature, 
 TRUSTED = ['the shared inspector model coq/Model/Insp_*.v (tied by the C01 correspondence, every chunk, all ten inspectors) and the generic wrapper model '
            'coq/Model/Wrap.v (C06); this plugin ties their composition to the real InspectWrapper / detect_file_format after every call',
            'tools/imgbuild.py signature_present(): the reference reading of "the format\'s signature is present in the content" used by the oracle']
-ASSUMPTIONS = ['the iteration order of the Python set of inspectors is modelled as a list; every theorem holds for every order, the correspondence picks one per case',
+ASSUMPTIONS = ['inspector instances (and wrappers) share no mutable state: an inspector is a value in the model; tested by the model-free indep/detect2 family (two live wrappers interleaved)',
+               'the iteration order of the Python set of inspectors is modelled as a list; every theorem holds for every order, the correspondence picks one per case',
                'the order in which formats evaluates format_match over the set matters only for WHICH exception escapes when several queries raise; none raises in a reachable state (C03_queries_total)',
                'allowed_formats=[] (like None) means all formats (DESIGN O2); names are compared with ==']
 LEVEL_TEXT = ('Proved (Coq, unbounded: all contents, all read-size sequences, all expected_format / allowed_formats) on the model = generic InspectWrapper model '
